@@ -29,6 +29,7 @@ func runC12(c *Ctx, r *Report) {
 	c06R5(c, r, "C12.R8")
 	c14TablesFor(c, r, "C12.R10", "proxy_protocol") // the route with the handler is entered for whole, split and near-miss v1/v2 headers exactly as the PROXY protocol says
 	c14R4(c, r, "C12.R9")
+	c12Provision(c, r, "C12.R12")
 	c02Router(c, r, "C12.R11") // routes after the handler are decided on the connection it handed on: verdicts taken on the raw connection before the header was stripped are asked again
 }
 
